@@ -13,9 +13,18 @@ legs: MC   TLC checks, for every well-formed ledger of <= 3 (4) directives over 
            reloaded subset of the S2C ledgers are recorded (abstract window + all tables' projected rows) and judged
            by TLC (Trace_Ledger: Rows(ledger, keys) is the oracle)
 
+The connection's history is part of every case: before the tables are read, a history of statements (FROM clauses with
+OPEN ON / CLOSE [ON] / CLEAR on the default table in several statement forms, failing statements, abandoned cursors,
+table references, other tables) is executed on the SAME connection -- chosen by the specification in S2C (Gen_Ledger:
+HistOf), at random in C2S and recorded in the trace line; the oracle is RowsAfter(history, ledger, keys) (= the ledger's
+rows: Ledger.tla part 3, HistoryFree is model-checked over up to 3 statements per connection, a mechanism that sets the
+qualifiers on the registered table must be rejected).  Relational laws on the history statements themselves (their result
+is a function of ledger and statement: the same when executed again at the end, and on a fresh connection).
+
 Columns without counterpart in the model (`id`, `balance`, unknown future columns) get generic checks only
 (declared type, id stability / consistency) and are counted as uncovered.
 """
+import dataclasses
 import datetime
 import decimal
 import hashlib
@@ -202,10 +211,95 @@ def lookup_select(table, keys, as_text=False):
     return ast.Select(targets, ast.Table(table), None, None, None, None, None, None)
 
 
-class Observation:
-    """everything the live tables of one connection show, projected to the specification's vocabulary"""
+# ---- the connection's history: statements executed before the tables are read (vocabulary of Ledger.tla part 3) ----
+FROM_FORMS = {      # forms with a FROM clause on the default table: the qualifiers are filled into the parsed template
+    'count': 'SELECT count(*) AS n FROM TRUE',
+    'agg': 'SELECT account, sum(position) AS s FROM TRUE GROUP BY account',
+    'rows': 'SELECT date, account, number FROM year >= 1900',
+    'balances': 'BALANCES FROM TRUE',
+    'error': 'SELECT nosuchcolumn FROM TRUE',
+    'partial': 'SELECT date, account, number FROM year >= 1900',
+}
+REF_FORMS = {       # forms without: the registered table object itself / another table
+    'tableref': 'SELECT count(*) AS n FROM #postings',
+    'default': 'SELECT count(*) AS n',
+    'entries': 'SELECT count(*) AS n FROM #entries',
+}
+KEEP_EXPRESSION = ('rows', 'partial')
+SLOW_FORMS = ('balances',)     # BALANCES re-parses its SELECT template at every compilation (~0.1 s): executed once only
 
-    def __init__(self, entries, options, keys, text_lookups=False):
+
+def history_statement(h):
+    """abstract statement {form, open: [] | [ordinal], close: [] | [0] | [ordinal], clear} -> AST"""
+    from beanquery.parser import ast
+    form = h['form']
+    if form in REF_FORMS:
+        if h['open'] or h['close'] or h['clear']:
+            raise MachineryError('history: form %s cannot carry qualifiers' % form)
+        return parsed(REF_FORMS[form])
+    st = parsed(FROM_FORMS[form])
+    o = lg.date_of(h['open'][0]) if h['open'] else None
+    c = (True if h['close'][0] == 0 else lg.date_of(h['close'][0])) if h['close'] else None
+    expr = st.from_clause.expression if form in KEEP_EXPRESSION else None
+    return dataclasses.replace(st, from_clause=ast.From(expr, o, c, True if h['clear'] else None))
+
+
+def run_statement(conn, h):
+    """execute one history statement; what it gave, as a comparable digest (the error path too)"""
+    try:
+        cur = conn.execute(history_statement(h))
+        rows = [cur.fetchone()] if h['form'] == 'partial' else cur.fetchall()
+    except MachineryError:
+        raise
+    except Exception as ex:  # noqa   a failing statement is history as well
+        return ['error', type(ex).__name__]
+    return ['ok', len(rows), hashlib.blake2b(repr(rows).encode(), digest_size=8).hexdigest()]
+
+
+def describe(h):
+    q = []
+    if h['open']:
+        q.append('OPEN ON %s' % lg.date_of(h['open'][0]))
+    if h['close']:
+        q.append('CLOSE' if h['close'][0] == 0 else 'CLOSE ON %s' % lg.date_of(h['close'][0]))
+    if h['clear']:
+        q.append('CLEAR')
+    return '%s[%s]' % (h['form'], ' '.join(q))
+
+
+def random_history(rng, abstract):
+    """a seeded random history of 0..4 statements; the qualifier dates are taken from the ledger"""
+    if rng.random() < 0.4:
+        return []
+    dates = sorted({d['date'] for d in abstract}) or [737425]
+    out = []
+    for _ in range(rng.randint(1, 4)):
+        form = rng.choice(['count', 'count', 'agg', 'agg', 'rows', 'rows', 'error', 'partial', 'tableref', 'default',
+                           'entries', 'balances'])
+        if form == 'balances' and rng.random() < 0.7:
+            form = 'agg'
+        h = {'form': form, 'open': [], 'close': [], 'clear': False}
+        if form in FROM_FORMS:
+            shape = rng.random()
+            if shape < 0.45:
+                h['clear'] = True       # CLEAR alone
+            else:
+                if rng.random() < 0.5:
+                    h['open'] = [rng.choice(dates) + rng.choice((0, 1))]
+                if rng.random() < 0.5:
+                    h['close'] = [0] if rng.random() < 0.3 else [rng.choice(dates) + rng.choice((0, 1, 40))]
+                h['clear'] = rng.random() < 0.5
+        out.append(h)
+    return out
+
+
+class Observation:
+    """everything the live tables of one connection show AFTER the history was executed on it, projected to the
+    specification's vocabulary"""
+
+    def __init__(self, entries, options, keys, text_lookups=False, history=()):
+        self.history = list(history)
+        self.statements = 0        # history statements executed (first run, replay, fresh connection)
         self.entries = entries
         self.options = options
         self.keys = list(keys)
@@ -231,6 +325,7 @@ class Observation:
             self.rows = {name: None for name in TABLES}
             return self
         live = {n: t for n, t in self.conn.tables.items() if n}
+        first = [run_statement(self.conn, h) for h in self.history]       # before any table is read
         for name in TABLES:
             if name not in live:
                 self.problem('%s:table-missing' % name, 'table #%s is not registered' % name)
@@ -240,7 +335,25 @@ class Observation:
         for name in live:
             if name not in TABLES:
                 self.uncovered['#' + name] = self.uncovered.get('#' + name, 0) + 1
+        self.history_laws(first)
         return self
+
+    def history_laws(self, first):
+        """what a statement gives is a function of the ledger and the statement -- not of what ran before it on the
+        connection: executed again after all the table scans, and alone on a fresh connection, it gives the same"""
+        self.statements = len(first)
+        for n, (h, was) in enumerate(zip(self.history, first)):
+            if h['form'] in SLOW_FORMS:
+                continue
+            again = run_statement(self.conn, h)
+            if again != was:
+                self.problem('history:replay:%s' % h['form'], 'statement %d of the history, %s, gives a different result '
+                             'when executed again on the same connection after the table scans' % (n + 1, describe(h)), was, again)
+            fresh = run_statement(lg.connect(self.entries, self.options), h)
+            self.statements += 2
+            if fresh != was:
+                self.problem('history:fresh:%s' % h['form'], 'statement %d of the history, %s, gives a different result '
+                             'than alone on a fresh connection over the same ledger' % (n + 1, describe(h)), fresh, was)
 
     def execute(self, name, stmt, what):
         try:
@@ -433,8 +546,8 @@ def compare(report, spec_rows, obs):
     return bad
 
 
-def ledger_key(abstract_entries):
-    return hashlib.blake2b(json.dumps(abstract_entries, sort_keys=True).encode(), digest_size=8).hexdigest()
+def ledger_key(abstract_entries, history=()):
+    return hashlib.blake2b(json.dumps([abstract_entries, list(history)], sort_keys=True).encode(), digest_size=8).hexdigest()
 
 
 def user_keys(abstract_entries, limit=8):
@@ -472,27 +585,37 @@ class Recorder:
         self.not_wellformed = 0
         self.selftested = False
         self.first_with_posting = None
+        self.with_history = 0
+        self.statements = 0
+        self.forms = {}
 
-    def add(self, entries, options, kind, abstract=None, text_lookups=False):
-        """observe one ledger on the real code and append the event; returns False if skipped (out of domain)"""
+    def add(self, entries, options, kind, abstract=None, text_lookups=False, history=None):
+        """observe one ledger on the real code -- after `history` (a list of abstract statements, or a function of the
+        abstract ledger giving one) was executed on the connection -- and append the event; returns False if skipped
+        (out of domain)"""
         ctx = self.ctx
         try:
             if abstract is None:
                 abstract = lg.abstract_of(entries)['entries']
             keys = user_keys(abstract)
-            obs = Observation(entries, options, keys, text_lookups=text_lookups).run()
+            history = history(abstract) if callable(history) else list(history or [])
+            obs = Observation(entries, options, keys, text_lookups=text_lookups, history=history).run()
             obs.cross_checks()
         except lg.OutOfDomain as ex:
             ctx.skipped += 1
             ctx.leg('C2S', skipped_reason=str(ex)[:80])
             return False
-        case = {'kind': kind, 'ledger': abstract, 'keys': keys}
+        case = {'kind': kind, 'ledger': abstract, 'keys': keys, 'history': history}
         for key, clause, exp, got in obs.problems:
             ctx.violation(key, clause, case, 'C2S', exp, got)
         if any(obs.rows.get(t) is None for t in TABLES):
             return False          # structural problem already reported
         self.n += 1
-        ev = {'id': self.n, 'kind': kind, 'ledger': abstract, 'keys': keys, 'rows': obs.rows}
+        self.with_history += 1 if history else 0
+        self.statements += obs.statements
+        for h in history:
+            self.forms[h['form']] = self.forms.get(h['form'], 0) + 1
+        ev = {'id': self.n, 'kind': kind, 'ledger': abstract, 'keys': keys, 'history': history, 'rows': obs.rows}
         line = json.dumps(ev)
         self.f.write(line + '\n')
         self.in_file += 1
@@ -505,9 +628,9 @@ class Recorder:
             self.uncovered[k] = self.uncovered.get(k, 0) + v
         self.cells += obs.cells
         ctx.skipped += obs.ood_cells
-        ctx.case(ledger_key(abstract), any(d['k'] == 'txn' for d in abstract), n=obs.cells)
+        ctx.case(ledger_key(abstract, history), any(d['k'] == 'txn' for d in abstract), n=obs.cells)
         if self.n <= 1:
-            ctx.sample({'leg': 'C2S', 'kind': kind, 'directives': len(abstract), 'keys': keys,
+            ctx.sample({'leg': 'C2S', 'kind': kind, 'directives': len(abstract), 'keys': keys, 'history': history,
                         'first_posting_row': (obs.rows['postings'] or [None])[0]})
         if self.in_file >= self.CHUNK or self.bytes >= self.CHUNK_BYTES:
             self.judge()
@@ -579,7 +702,9 @@ class Recorder:
         if not self.selftested and self.lines:
             raise MachineryError('binding self-test: no recorded line has a posting')
         self.ctx.leg('C2S', lines=self.lines, rejected=self.rejected, skipped_not_wellformed=self.not_wellformed,
-                     kinds=self.kinds, cells=self.cells, uncovered_cells=self.uncovered, what=what)
+                     kinds=self.kinds, cells=self.cells, uncovered_cells=self.uncovered, what=what,
+                     ledgers_read_after_a_history=self.with_history, history_statements_executed=self.statements,
+                     history_forms=self.forms)
         return rejected
 
 
@@ -602,7 +727,8 @@ def s2c_eval(arg):
     entries, options = lg.build_entries(abstract)
     if lg.abstract_of(entries)['entries'] != p['ledger']:
         return {'machinery': 'ledgergen does not round-trip a generated ledger: %s' % json.dumps(p['ledger'])[:300]}
-    obs = Observation(entries, options, p['keys'], text_lookups=textual).run()
+    hist = p.get('hist', [])
+    obs = Observation(entries, options, p['keys'], text_lookups=textual, history=hist).run()
     obs.cross_checks()
     viol = []
     bad = compare(lambda *a: len(viol) < 40 and viol.append(a), p['rows'], obs)
@@ -610,7 +736,7 @@ def s2c_eval(arg):
     for d in p['ledger']:
         kinds[d['k']] = kinds.get(d['k'], 0) + 1
     out = {'viol': viol, 'bad': bad, 'cells': obs.cells, 'uncovered': obs.uncovered, 'kinds': kinds,
-           'key': ledger_key(p['ledger']), 'nontrivial': 'txn' in kinds}
+           'key': ledger_key(p['ledger'], hist), 'nontrivial': 'txn' in kinds, 'hist': hist, 'statements': obs.statements}
     if viol or p.get('want_ledger'):
         out.update(ledger=p['ledger'], keys=p['keys'], row1=p['rows']['postings'][:1])
     return out
@@ -624,10 +750,13 @@ class S2C:
         self.ctx = ctx
         self.rec = rec
         self.reload_every = reload_every
-        self.stats = {'n': 0, 'cells': 0, 'bad': 0, 'uncovered': {}, 'kinds': {}, 'unprintable': 0}
+        self.stats = {'n': 0, 'cells': 0, 'bad': 0, 'uncovered': {}, 'kinds': {}, 'unprintable': 0, 'with_history': 0,
+                      'statements': 0, 'forms': {}}
         self.seen = set()
         # parse the per-table statements (about 1 s each with TatSu) once, before the workers are forked
         Observation([], lg.default_options(), []).run()
+        for text in list(FROM_FORMS.values()) + list(REF_FORMS.values()):
+            parsed(text)
         self.pool = multiprocessing.get_context('fork').Pool(procs) if procs > 1 else None
 
     def close(self):
@@ -652,12 +781,16 @@ class S2C:
             if 'machinery' in r:
                 raise MachineryError(r['machinery'])
             if r['viol']:
-                case = {'kind': 'gen', 'ledger': r['ledger'], 'keys': r['keys']}
+                case = {'kind': 'gen', 'ledger': r['ledger'], 'keys': r['keys'], 'history': r['hist']}
                 for key, clause, exp, got in r['viol']:
                     ctx.violation(key, clause, case, 'S2C', exp, got)
             stats['n'] += 1
             stats['cells'] += r['cells']
             stats['bad'] += r['bad']
+            stats['with_history'] += 1 if r['hist'] else 0
+            stats['statements'] += r['statements']
+            for h in r['hist']:
+                stats['forms'][h['form']] = stats['forms'].get(h['form'], 0) + 1
             for k, v in r['uncovered'].items():
                 stats['uncovered'][k] = stats['uncovered'].get(k, 0) + v
             for k, v in r['kinds'].items():
@@ -667,7 +800,7 @@ class S2C:
             if 'ledger' not in r:
                 continue
             if stats['n'] in (2, 70):
-                ctx.sample({'leg': 'S2C', 'ledger': r['ledger'], 'expected_postings_rows': r['row1']})
+                ctx.sample({'leg': 'S2C', 'ledger': r['ledger'], 'history': r['hist'], 'expected_postings_rows': r['row1']})
             if self.rec is not None and self.reload_every and stats['n'] % self.reload_every == 0 and r['ledger']:
                 # the same ledger through beancount's own pipeline (print, parse, book, pad, validate): judged by TLC
                 # in the trace leg
@@ -677,7 +810,7 @@ class S2C:
                     stats['unprintable'] += 1
                     continue
                 if es:
-                    self.rec.add(es, opts, 'gen-reloaded')
+                    self.rec.add(es, opts, 'gen-reloaded', history=lambda a: random_history(self.ctx.rng, a))
 
 
 def tlc(ctx, module, cfg, **kw):
@@ -687,8 +820,9 @@ def tlc(ctx, module, cfg, **kw):
 
 
 def run(ctx):
-    ctx.rule = ('one case = one ledger; evaluations = projected cells compared (every modelled column of every row of the '
-                'ten tables + every metadata lookup per key); distinct = distinct ledgers (hash of the abstract ledger); '
+    ctx.rule = ('one case = one ledger read after one history of statements on its connection; evaluations = projected '
+                'cells compared (every modelled column of every row of the ten tables + every metadata lookup per key); '
+                'distinct = distinct (ledger, history) pairs (hash of the abstract ledger and history); '
                 'non-trivial = the ledger has at least one transaction')
     ctx.assumptions += [
         'ledgers in the domain: at most one open / close per account and one commodity directive per currency, '
@@ -698,6 +832,9 @@ def run(ctx):
         'sets of rows; other_accounts, tags, links, metadata dictionaries are compared as sets',
         'metadata keys starting with __ (loader internals) are outside the vocabulary and dropped on both sides',
         'numbers are exact reduced rationals below 2^31; a weight whose product leaves that range is skipped (counted)',
+        'what a statement with OPEN / CLOSE / CLEAR qualifiers itself returns is not stated by C11: history statements are '
+        'only required to give the same result again later on the connection and alone on a fresh connection (law), the '
+        'specification models the prepared entries by their shape only',
         'id (hash of the directive) and balance (C12) have no counterpart in the model: declared type / consistency only',
         'TLC 1.8, Json/IOUtils community modules, CPython 3.12, Beancount 3.2.3',
     ]
@@ -712,8 +849,14 @@ def run(ctx):
             if res.violated:
                 ctx.violation('spec:' + ','.join(res.violated), 'TLC: the mechanism does not yield the declarative rows',
                               {'behaviour': res.behaviour[:3000]}, 'MC')
+        # the connection: up to 3 statements one after the other (any table, any FROM qualifiers on the default table)
+        res = tlc(ctx, 'MC_Ledger', 'MC_Ledger_conn.cfg', leg='MC', workers=4)
+        if res.violated:
+            ctx.violation('spec:' + ','.join(res.violated), 'TLC: a statement on a connection with a history does not present '
+                          'the ledger', {'behaviour': res.behaviour[:3000]}, 'MC')
         tlc(ctx, 'MC_Ledger', 'MC_Ledger_skipfirst.cfg', leg='MC-nonvacuity', expect_violation='MechEqDecl', workers=2)
         tlc(ctx, 'MC_Ledger', 'MC_Ledger_rowid.cfg', leg='MC-nonvacuity', expect_violation='RowidInv', workers=2)
+        tlc(ctx, 'MC_Ledger', 'MC_Ledger_inplace.cfg', leg='MC-nonvacuity', expect_violation='HistoryFree', workers=2)
     rec = Recorder(ctx, ctx.path('ledger_trace.ndjson'))
     # ---- S2C
     if not only or 'S2C' in only:
@@ -742,31 +885,41 @@ def run(ctx):
             raise MachineryError('vacuity: directive kinds never generated: %s' % missing)
         ctx.leg('S2C', ledgers=stats['n'], cells=stats['cells'], mismatching_cells=stats['bad'],
                 directives_by_kind=stats['kinds'], uncovered_cells=stats['uncovered'],
-                unprintable_for_reload=stats['unprintable'])
+                unprintable_for_reload=stats['unprintable'], ledgers_read_after_a_history=stats['with_history'],
+                history_statements_executed=stats['statements'], history_forms=stats['forms'])
+        if not stats['with_history'] or not stats['forms'].get('agg') or stats['with_history'] == stats['n']:
+            raise MachineryError('vacuity: the generator emitted %d of %d ledgers with a history (forms %s)'
+                                 % (stats['with_history'], stats['n'], stats['forms']))
     # ---- C2S
     if not only or 'C2S' in only:
         rng = ctx.rng
+
+        def hist(a):
+            return random_history(rng, a)
         entries, errors, options = lg.example_entries(seed=ctx.seed % 1000)
         wins = lg.windows(entries, 40)
         if ctx.quick:
             wins = wins[:2] + rng.sample(wins[2:], min(8, max(0, len(wins) - 2)))
         for n, wdw in enumerate(wins):
-            rec.add(wdw, options, 'example-window', text_lookups=(n == 0))
+            rec.add(wdw, options, 'example-window', text_lookups=(n == 0), history=hist if n else [])
         for n in range(ctx.pick(100, 2000)):
             a = lg.random_ledger(rng, rng.randint(3, 36), direct=True)
             es, opts = lg.build_entries(a)
-            rec.add(es, opts, 'random-direct', abstract=a['entries'])
+            rec.add(es, opts, 'random-direct', abstract=a['entries'], history=hist)
         for n in range(ctx.pick(40, 600)):
             a = lg.random_ledger(rng, rng.randint(8, 40), direct=False)
             es, errs, opts = lg.load_entries(a)
-            rec.add(es, opts, 'random-loaded')
+            rec.add(es, opts, 'random-loaded', history=hist)
         if rec.n == 0 and ctx.violations:
             ctx.log('C2S: no ledger could be observed (violations already reported); nothing for TLC to judge')
         elif rec.n == 0:
             raise MachineryError('C2S: nothing recorded')
         else:
             rec.finish('example ledger windows of 40 directives; random direct ledgers; random printed+loaded ledgers '
-                       '(booking, padding); reloaded generator ledgers')
+                       '(booking, padding); reloaded generator ledgers; each read after a random history of 0..4 statements '
+                       'on the same connection')
+            if rec.lines and not rec.with_history:
+                raise MachineryError('vacuity: no recorded ledger was read after a history')
     ctx.exhaustive = False
 
 
@@ -781,7 +934,7 @@ def replay(ctx, rep):
     rec = Recorder(ctx, ctx.path('replay.ndjson'))
     before = len(ctx.violations)
     rec.selftested = True      # a replay judges one line only
-    rec.add(entries, options, 'replay', abstract=case['ledger'])
+    rec.add(entries, options, 'replay', abstract=case['ledger'], history=case.get('history', []))
     rejected = rec.finish('replay') if rec.n else []
     bad = len(ctx.violations) > before or bool(rejected) or bool(ctx.known_hits)
     print('replay:', 'MISMATCH reproduced' if bad else 'no mismatch')
